@@ -4,10 +4,10 @@
    in the point type, the cost order, the cost function, the termination test and the five point operations — so the theorems
    hold for the rounded binary64 operations as well as for exact ones.  The same Gallina function, instantiated at Coq's
    primitive binary64 floats, is compared bit for bit with nelder_mead_1d on every run (result and the whole sequence of
-   evaluated points).  Gen/Poling.v (regenerated from src/ on every run) says how optimum_poling_period and
+   evaluated points).  Gen/AutoCalc.v (regenerated from src/ on every run) says how optimum_poling_period and
    CrystalSetup::optimum_theta drive it (seeds, bounds, iteration limit, tolerance, early exit, final test, sign). *)
 From Coq Require Import Reals List Bool.
-From SpdVerif Require Import Base.Rx Base.Vec3 Gen.Idler Gen.Poling Model.Idler Model.NM1d Model.Poling
+From SpdVerif Require Import Base.Rx Base.Vec3 Gen.Idler Gen.AutoCalc Model.Idler Model.NM1d Model.AutoCalc
   Proofs.C03_base Proofs.C03_idler Proofs.C04_nm Proofs.C04_poling Proofs.C04_collinear Proofs.C04_all.
 Local Open Scope R_scope.
 
